@@ -407,7 +407,7 @@ class Facts:
         self.crates = {}
         for f in sorted(glob.glob(os.path.join(directory, "*.json"))):
             base = os.path.basename(f)
-            if base == "META.json":
+            if base in ("META.json", "cxx.json") or len(base.split(".")) != 4:
                 continue
             name, kind = base.split(".")[0], base.split(".")[1]
             if name == "build_script_build":
